@@ -405,6 +405,22 @@ def oracle_empty():
             return 'the empty set {exp(z + 3) <= 1, z >= -1} was accepted at construction'
         except RuntimeError:
             pass
+        # constraints with rows that mention NO coordinate (a box on some coordinates written with a masked matrix: diag(1, 0, 1) @ x <= ub): a true constant
+        # row (0 <= 1) changes nothing, a false one (0 <= -1) makes the set empty, and the conic data, membership and support function agree on that
+        xm_ = cl.Variable(shape=(3,), name='mask_dom_x')
+        Dm = np.diag([1.0, 0.0, 1.0])
+        try:
+            Xm = SigDomain(3, coniclifts_cons=[Dm @ xm_ <= np.array([1.0, 1.0, 1.0]), Dm @ xm_ >= np.array([-1.0, -1.0, -1.0])])
+        except RuntimeError:
+            return 'the non-empty set {|x0| <= 1, |x2| <= 1} in R^3 written as diag(1,0,1) @ x <= 1, >= -1 (two true constant rows) was reported empty at construction'
+        sfm = Xm.suppfunc(np.array([1.0, 0.0, -2.0]))
+        if abs(sfm - 3.0) > 1e-4:
+            return 'X = {|x0| <= 1, |x2| <= 1} in R^3 written with a masked matrix: suppfunc((1, 0, -2)) = %r, expected 3' % sfm
+        try:
+            SigDomain(3, coniclifts_cons=[Dm @ xm_ <= np.array([1.0, -1.0, 1.0])])
+            return 'the empty set given by diag(1,0,1) @ x <= (1, -1, 1) (the middle row reads 0 <= -1) was accepted at construction'
+        except RuntimeError:
+            pass
         # a badly scaled convexifiable constraint, 1 - 2e-9 exp(4 x0) >= 0 (i.e. x0 <= log(5e8)/4 = 5.0075): a term with a small coefficient is a term
         yt = so.standard_sig_monomials(2)
         for coef in (2e-9, 2.0 ** -29):
